@@ -84,6 +84,7 @@ type c03Env struct {
 	jwks    []c03JWK
 	pkgKey  *ecdsa.PrivateKey // signer for the package-level functions
 	mem     MemoryJWTSigner
+	memUnnamed MemoryJWTSigner // a JWK without key id (what GenerateJWK returns)
 	// canary scan
 	sinks    map[string]*bytes.Buffer
 	canaries []c03Canary
@@ -846,6 +847,7 @@ func (e *c03Env) execHeaders(op map[string]interface{}) string {
 	var err error
 	jwsMode := str("op") == "signjws"
 	claims := map[string]interface{}{"iss": "me"}
+	var memSigner *MemoryJWTSigner // set for in-memory ops that state the key id: the token must verify with THAT signer's key
 	switch str("via") {
 	case "pkg":
 		if jwsMode {
@@ -854,10 +856,17 @@ func (e *c03Env) execHeaders(op map[string]interface{}) string {
 			tok, err = SignJWT(ctx, e.pkgKey, jwa.ES256, claims, headers)
 		}
 	case "memory":
+		ms := e.mem
+		if id, has := op["memKeyId"].(string); has {
+			memSigner = &ms
+			if id == "" {
+				ms = e.memUnnamed
+			}
+		}
 		if jwsMode {
-			tok, err = e.mem.SignJWS(ctx, []byte("payload"), headers, kid, detached)
+			tok, err = ms.SignJWS(ctx, []byte("payload"), headers, kid, detached)
 		} else {
-			tok, err = e.mem.SignJWT(ctx, claims, headers, kid)
+			tok, err = ms.SignJWT(ctx, claims, headers, kid)
 		}
 	default:
 		if jwsMode {
@@ -908,7 +917,23 @@ func (e *c03Env) execHeaders(op map[string]interface{}) string {
 			}
 		}
 	}
-	return pre + fmt.Sprintf("ok kid=%s jwk=%s secret=%s names=[%s]", kidOut, jwkOut, secret, strings.Join(names, ","))
+	vk := ""
+	if memSigner != nil {
+		vk = " vk=NOT-OWN"
+		if pub, perr := memSigner.Key.PublicKey(); perr == nil {
+			var rawPub interface{}
+			if pub.Raw(&rawPub) == nil {
+				opts := []jws.VerifyOption{jws.WithKey(jwa.ES256, rawPub)}
+				if detached && jwsMode {
+					opts = append(opts, jws.WithDetachedPayload([]byte("payload")))
+				}
+				if _, verr := jws.Verify([]byte(tok), opts...); verr == nil {
+					vk = " vk=own"
+				}
+			}
+		}
+	}
+	return pre + fmt.Sprintf("ok kid=%s jwk=%s secret=%s names=[%s]", kidOut, jwkOut, secret, strings.Join(names, ",")) + vk
 }
 
 func c03MakeJWKs(t *testing.T) []c03JWK {
@@ -1088,6 +1113,10 @@ func TestVerifC03(t *testing.T) {
 	memKey, _ := jwk.FromRaw(e.pkgKey)
 	_ = memKey.Set(jwk.KeyIDKey, "mem#1")
 	e.mem = MemoryJWTSigner{Key: memKey}
+	unnamedRaw, _ := ecdsa.GenerateKey(elliptic.P256(), crand.Reader)
+	unnamedKey, _ := jwk.FromRaw(unnamedRaw)
+	e.memUnnamed = MemoryJWTSigner{Key: unnamedKey}
+	e.callerCanaries("memUnnamed", unnamedRaw)
 	for _, j := range e.jwks {
 		e.callerCanaries(j.id, j.rawKey)
 	}
@@ -1388,6 +1417,16 @@ func TestVerifC03(t *testing.T) {
 			hs = []interface{}{}
 		}
 		emit(map[string]interface{}{"op": o, "via": via, "found": found, "kid": kid, "headers": hs, "detached": r.Intn(4) == 0})
+	}
+	// the in-memory signer's own kid guard: named / unnamed key x requested kids (own id, empty, sibling spellings, a victim's kid)
+	for _, memID := range []string{"mem#1", ""} {
+		for _, kid := range []string{"mem#1", "", "other#2", "did:web:example.com:iam:victim#0", "MEM#1", "mem#1 ", "mem", "did:hdr#1"} {
+			for _, o := range []string{"signjws", "signjwt"} {
+				for _, hs := range [][]interface{}{{}, {map[string]interface{}{"n": "kid", "k": "str", "v": "did:web:example.com:iam:victim#0"}}} {
+					emit(map[string]interface{}{"op": o, "via": "memory", "memKeyId": memID, "kid": kid, "headers": hs, "detached": o == "signjws" && kid == ""})
+				}
+			}
+		}
 	}
 	finish()
 	_ = big.NewInt
